@@ -31,6 +31,13 @@ def judgeProxy (st : ProxySt) (fields : List String) : ProxySt × String :=
       | some rw, some rq, some rs => ({ active := true, l := ⟨rq, rs, lq, rw⟩, upAE := ae, cacheable := cc = "1" }, "ok case 0")
       | _, _, _ => (st, "BADLINE proxy case pairs")
     | _, _, _, _, _ => (st, "BADLINE proxy case")
+  | ["hfpseq", a2, a3, aok, _axs, b2, b3, bok, _bxs] =>
+    -- on a hit-for-pass key: the conditional client got its 304, the range client its 206, and the plain clients
+    -- after them the full 200 response
+    let trip := (if a3 ≠ "200" ∨ aok ≠ "1" ∨ b3 ≠ "200" ∨ bok ≠ "1" then " TRIP partial_replayed" else "")
+      ++ (if a2 ≠ "304" then " TRIP no_304" else "")
+      ++ (if b2 ≠ "206" then " TRIP status_or_header_changed" else "")
+    (st, s!"ok hfpseq 1{trip}")
   | ["hang", limit, c1, ms1, c2, ms2] =>
     -- an upstream that never answers: the proxy timeout ends the fetch with an error (504) and releases the
     -- request coalesced behind it, within the timeout plus scheduling slack
